@@ -9,6 +9,8 @@
 package main
 
 import (
+	"bytes"
+	"encoding/binary"
 	"context"
 	"encoding/base64"
 	"encoding/json"
@@ -94,6 +96,7 @@ type scenario struct {
 	Fetchers               []int     // behaviour index into fetcherModes
 	Strict                 bool
 	DBFetchErr, DBStoreErr bool
+	Zone                   *[2]int32 `json:",omitempty"` // local time zone: UTC offset (seconds) before / after a change three days from now
 }
 
 var dbStates = []string{"current", "absent", "stale", "expired", "wrongkey", "farfuture"}
@@ -341,8 +344,39 @@ func reference(sc *scenario) (must, may []bool, err bool, refetch map[lr]bool) {
 	return must, may, false, refetch
 }
 
+// zoneFor builds a local time zone whose UTC offset changes once, three days after the scenario's "now".
+func zoneFor(before, after int32) *time.Location {
+	change := time.UnixMilli(N).Add(3 * 24 * time.Hour)
+	var b bytes.Buffer
+	b.WriteString("TZif")
+	b.Write(make([]byte, 16))
+	for _, n := range []uint32{0, 0, 0, 2, 2, 8} {
+		_ = binary.Write(&b, binary.BigEndian, n)
+	}
+	_ = binary.Write(&b, binary.BigEndian, int32(change.Add(-400*24*time.Hour).Unix()))
+	_ = binary.Write(&b, binary.BigEndian, int32(change.Unix()))
+	b.Write([]byte{0, 1})
+	_ = binary.Write(&b, binary.BigEndian, before)
+	b.Write([]byte{0, 0})
+	_ = binary.Write(&b, binary.BigEndian, after)
+	b.Write([]byte{0, 4})
+	b.WriteString("AAA\x00BBB\x00")
+	loc, err := time.LoadLocationFromTZData("Verif/C12", b.Bytes())
+	if err != nil {
+		panic(err)
+	}
+	return loc
+}
+
 func runScenario(r *harness.Run, sc *scenario) error {
 	r.Eval()
+	if sc.Zone != nil {
+		// process-global: only the sequential part (Z) and replays set it
+		savedLocal, savedClock := time.Local, verifhook.Clock
+		time.Local = zoneFor(sc.Zone[0], sc.Zone[1])
+		verifhook.Clock = func() time.Time { return time.UnixMilli(N) } // a reading taken under the zone in force
+		defer func() { time.Local, verifhook.Clock = savedLocal, savedClock }()
+	}
 	tr := &trace{}
 	ring := &gmsl.KeyRing{KeyDatabase: &scriptDB{sc, tr}}
 	for i, m := range sc.Fetchers {
@@ -886,6 +920,27 @@ func run(r *harness.Run) {
 			}
 		})
 		r.Count("A2_twin_batches", int64(len(tjobs)*len(rules)))
+	}
+	// (Z) the seven-day cap is seven times 24 hours from now, whatever the process's local time zone does in between: the
+	// strict rule around the cap under local zones whose UTC offset changes three days from now (clocks back / forward by
+	// one hour) and under UTC; key valid far beyond the cap
+	{
+		nz := 0
+		for _, z := range [][2]int32{{0, 0}, {3600, 0}, {0, 3600}, {-5 * 3600, -4 * 3600}, {12*3600 + 2700, 13*3600 + 2700}} {
+			z := z
+			for _, d := range []int64{-3_600_001, -3_600_000, -1_800_000, -1, 0, 1, 1_800_000, 3_599_999, 3_600_000, 3_600_001} {
+				for _, strict := range []bool{true, false} {
+					sc := &scenario{Fetchers: []int{0, 0}, Strict: strict, Zone: &z}
+					sc.DB[0][0], sc.DB[0][1], sc.DB[1][0], sc.DB[1][1] = 5, 5, 5, 5 // valid far in the future
+					sc.Reqs = []reqSpec{{Server: srvs[0], Sigs: [3]int{1, 0, 0}, AtTS: N + 7*day + d}}
+					nz++
+					if err := runScenario(r, sc); err != nil {
+						r.Violation(fmt.Sprintf("scenario-zone:%v:%d:%v", z, d, strict), fmt.Sprintf("local time zone with offsets %v around a change in three days: %v", z, err), "scenario", sc)
+					}
+				}
+			}
+		}
+		r.Count("Z_zone_cases", int64(nz))
 	}
 	// (B)
 	for _, ask := range []string{"s1.org", "s2.org"} {
